@@ -78,6 +78,52 @@ fn dec_ctok(x: &str) -> Option<CToken> {
     }
 }
 
+fn dec_tok(x: &str) -> Option<Token> {
+    if x == "L" {
+        Some(Token::Lambda)
+    } else if x == "(" {
+        Some(Token::Lparen)
+    } else if x == ")" {
+        Some(Token::Rparen)
+    } else if let Some(r) = x.strip_prefix('N') {
+        r.parse::<usize>().ok().map(Token::Number)
+    } else {
+        None
+    }
+}
+
+pub fn show_expr(e: &parser::Expression) -> String {
+    use parser::Expression::*;
+    match e {
+        Abstraction => "A".into(),
+        Variable(i) => format!("V{}", i),
+        Sequence(es) => {
+            let mut v = vec![format!("S{}", es.len())];
+            v.extend(es.iter().map(show_expr));
+            v.join(" ")
+        }
+    }
+}
+
+fn dec_expr<'a, I: Iterator<Item = &'a str>>(it: &mut I) -> Option<parser::Expression> {
+    use parser::Expression::*;
+    let w = it.next()?;
+    if w == "A" {
+        Some(Abstraction)
+    } else if let Some(r) = w.strip_prefix('V') {
+        r.parse::<usize>().ok().map(Variable)
+    } else if let Some(r) = w.strip_prefix('S') {
+        let n: usize = r.parse().ok()?;
+        let mut es = Vec::new();
+        for _ in 0..n {
+            es.push(dec_expr(it)?);
+        }
+        Some(Sequence(es))
+    } else {
+        None
+    }
+}
+
 fn show_cps(x: &str) -> String {
     let v: Vec<String> = x.chars().map(|c| (c as u32).to_string()).collect();
     if v.is_empty() {
@@ -166,6 +212,34 @@ pub fn exec2<'a, I: Iterator<Item = &'a str>>(op: &str, it: &mut I) -> String {
             let mut v = vec!["ok".to_string()];
             v.extend(ts.iter().map(show_tok));
             v.join(" ")
+        }
+        "ast" => {
+            let n = num!();
+            let mut ts = Vec::new();
+            for _ in 0..n {
+                match it.next().and_then(dec_tok) {
+                    Some(t) => ts.push(t),
+                    None => bad!(),
+                }
+            }
+            match parser::get_ast(&ts) {
+                Ok(e) => format!("ok {}", show_expr(&e)),
+                Err(e) => show_err(&e),
+            }
+        }
+        "fold" => {
+            let n = num!();
+            let mut es = Vec::new();
+            for _ in 0..n {
+                match dec_expr(it) {
+                    Some(e) => es.push(e),
+                    None => bad!(),
+                }
+            }
+            match parser::fold_exprs(&es) {
+                Ok(t) => format!("ok {}", s(&t)),
+                Err(e) => show_err(&e),
+            }
         }
         "parse" => {
             let nota = match it.next() {
